@@ -66,6 +66,11 @@ CHECKS["C15"] = dict(
    text="Generated-input search with an explicit oracle: for generated affine matrices of every sparsity pattern (diagonal, coupled, dense, block, permuted, triangular, chain) and identity coordinates, shapes and views, the world attributes, every automatically created pixel->world / world->pixel link (whole and viewed), the coordinate object's own inverse and a second dataset linked to the world attributes must agree with M.pixel-grid computed independently.",
    note="Trusted: numpy matrix arithmetic on dyadic entries (forward exact; inverse rtol 1e-9). astropy WCS objects out of scope.",
    ref="DESIGN.md section 4 C15")
+CHECKS["C17"] = dict(
+   technique="stateful property-based testing (Hypothesis op lists) with structural invariants, model postconditions and a two-way message<->diff comparison",
+   text="History search with invariants: generated sequences over the Data mutation API with valid and invalid arguments (add/remove/reorder/rename/update_id/update_components/update_values_from_data/coords/label), on bare data, data with a hub and data in a collection; after every step all components have the data's shape, there is one pixel (and, with coords, one world) attribute per dimension, ids are unique, name lookup follows the documented precedence, op-specific postconditions hold, and the structural messages seen on the hub correspond exactly to the difference between the component lists before and after.",
+   note="Trusted: the invariants and diff logic in pbt/props/c17.py; only messages named in message.py are asserted; pixel/world ids are never removed by hand.",
+   ref="DESIGN.md section 4 C17")
 NOT_APPLICABLE = []
 
 def main():
